@@ -19,7 +19,7 @@ import os, re, itertools
 from vlib import core, twin
 
 LEVEL = "exploration"
-BUDGET = {"quick": 420, "thorough": 2400}
+BUDGET = {"quick": 900, "thorough": 3600}
 PER_BATCH = 1500
 
 # ------------------------------------------------------------------------------------------------------------------
@@ -788,8 +788,8 @@ def run(ctx):
     if ctx.seed:
         import random
         random.Random(ctx.seed).shuffle(blks)             # shard assignment only
-    # big blocks first so that the pool drains evenly
-    order = sorted(range(len(blks)), key=lambda i: (blks[i][0] != "C", -(len(ALPHAS[blks[i][3]]) ** min(blks[i][4], 2) if blks[i][0] == "C" else 0)))
+    # short sequences first (shrinking looks sub-sequences up, also when the deadline stops the run); big blocks first
+    order = sorted(range(len(blks)), key=lambda i: (blks[i][4], -len(ALPHAS[blks[i][3]])) if blks[i][0] == "C" else (0, 0))
     args = [(ctx.chibicc, ctx.include, os.path.join(ctx.work, "k%d" % i), tier, blks[i]) for i in order]
     results, rejected, failcases = {}, {}, {}
     ncases = judged = reduced = ref_rejected = odis = nfacts = nimg = 0
@@ -878,11 +878,25 @@ def run(ctx):
         return struct_case(kind, attr, seq)
 
     def abstract(seq):
-        """shape class of a member sequence: bit-field widths collapse to 0 / unnamed / n"""
+        """shape class of a member sequence (keeps the number of signatures of one root cause small; the exact minimal
+        sequence is in the description and in the replay)"""
         out = []
         for code in seq:
             m = re.fullmatch(r"([a-z]+):(-?)(\d+)", code)
-            out.append(code if not m else "%s:%s" % (m.group(1), "0" if m.group(3) == "0" else ("-n" if m.group(2) else "n")))
+            if m:
+                out.append("bitfield0" if m.group(3) == "0" else ("unnamed-bitfield" if m.group(2) else "bitfield"))
+            elif code in SCALARS:
+                out.append("scalar")
+            elif code[0] == "A":
+                out.append("alignas")
+            elif code.endswith("F"):
+                out.append("flexarray")
+            elif code[0] == "a" and code[1:] in AGG:
+                out.append("anon-aggregate")
+            elif code in AGG:
+                out.append("aggregate")
+            else:
+                out.append("array")
         return ",".join(out)
 
     def files_for(c):
